@@ -133,6 +133,9 @@ pub fn check_pair(ty: &str, a: u64, b: u64) {
     if (x == y) != (a == b) || (x != y) != (a != b) || (x < y) != (a < b) || (x <= y) != (a <= b) || (x > y) != (a > b) || (x >= y) != (a >= b) {
         fail(ty, "relops", a, b, "mismatch".into(), "raw comparison".into());
     }
+    if x.max(y).raw_value() != a.max(b) || x.min(y).raw_value() != a.min(b) || x.clone().raw_value() != a {
+        fail(ty, "max/min/clone", a, b, format!("{} {}", x.max(y).raw_value(), x.min(y).raw_value()), format!("{} {}", a.max(b), a.min(b)));
+    }
     key("cmp", match a.cmp(&b) {
         std::cmp::Ordering::Less => "lt",
         std::cmp::Ordering::Equal => "eq",
@@ -304,6 +307,9 @@ fn check_pair<A: Address<V = u64> + std::fmt::Debug>(ty: &str, a: u64, b: u64) {
     }
     if (x == y) != (a == b) || (x != y) != (a != b) || (x < y) != (a < b) || (x <= y) != (a <= b) || (x > y) != (a > b) || (x >= y) != (a >= b) {
         fail(ty, "relops", a, b, "mismatch".into(), "raw comparison".into());
+    }
+    if x.max(y).raw_value() != a.max(b) || x.min(y).raw_value() != a.min(b) || x.clone().raw_value() != a {
+        fail(ty, "max/min/clone", a, b, format!("{} {}", x.max(y).raw_value(), x.min(y).raw_value()), format!("{} {}", a.max(b), a.min(b)));
     }
     key("cmp", match a.cmp(&b) {
         std::cmp::Ordering::Less => "lt",
